@@ -476,3 +476,8 @@ Proof.
   exists items. split; [reflexivity|]. vm_compute in E. injection E as <-.
   intros G. destruct (G eq_refl) as [_ G2]. vm_compute in G2. discriminate G2.
 Qed.
+
+Lemma no_entrait_t_no_clash19 h s body :
+  forallb (fun p => negb (is_tparam "EntraitT" p)) (p_items (g_params (s_gen s))) = true ->
+  c19_clash (InFn h s body) = false.
+Proof. intros H. apply c05_clash_c19. exact (no_entrait_t_no_clash h s body H). Qed.
